@@ -16,7 +16,7 @@ from ..gen import c17_nets as G
 PID = "C17"
 KNOWN_LP_KEY = "stoich._positive_conservation_law_from_basis:LP-branch:false-negative"
 COQ_HEADER = ("From Coq Require Import List NArith ZArith.\nImport ListNotations.\n"
-              "From SK Require Import lib.Tok lib.C17_Farkas model.C17_Model model.C17_NodeModel model.C17_IntLaws.\n")
+              "From SK Require Import lib.Tok lib.C17_Farkas model.C17_Model model.C17_NodeModel model.C17_IntLaws model.C17_RawModel.\n")
 SHARD = 250
 IMPL_TIMEOUT = 2400
 COQ_TIMEOUT = 1500
@@ -37,6 +37,8 @@ TRUSTED_BASE = [
     "hand-written models coq/model/C17_Model.v (label level) and coq/model/C17_NodeModel.v (node-identifier level; evaluated on the node "
     "ids of the graph the implementation really used) tied to stoich.py/utils.py/conversion.py by the per-run correspondence",
     "harness encoders harness/props/C17.py (case -> Gallina literal; numpy arrays -> integers; floats -> exact float.as_integer_ratio() pairs) and the tok digest",
+    "model/C17_RawModel.v: the attribute layer (classification by kind / bipartite, label fall-back to str(node), role / stoich defaults) — the encoder hands over "
+    "each attribute as the code's == tests read it (0 == False == 0.0, 1 == True); str(node) and str(label) are computed by Python",
     "model/C17_IntLaws.v: hand-written model of CPython 3.12 fractions.Fraction.limit_denominator and of stoich._lcm / _vector_to_minimal_integer / "
     "integer_conservation_laws; which branch the code took is observed by giving the module its own round()",
     "numpy/scipy numerics are NOT trusted and NOT modelled: their integer/boolean outputs are compared per input with certified exact values",
@@ -66,7 +68,8 @@ LEVEL_TEXT = ("Machine-checked proof (Coq) that the model of build_S has one row
               "assignment of node identifiers (two-digit, permuted, string or integer); and that the executable rank / positive-kernel certificate checkers are sound for every "
               "integer matrix (rank over the rationals via MathComp, Stiemke alternative for conservativity and consistency); that limit_denominator returns a positive denominator "
               "within its bound and that _vector_to_minimal_integer (outside its float-rounding fall-backs) returns the zero vector or a gcd-1 vector positively proportional to the "
-              "rational approximations of the entries. The float "
+              "rational approximations of the entries; and that everything computed from a partially attributed caller-supplied graph depends only on the classification tests, effective labels, roles and effective "
+              "coefficients (the fully annotated export normalises to the node-level export). The float "
               "results of the implementation (rank, kernel dimensions, verdicts) are compared on every run with certified exact values on an "
               "exhaustive small scope plus random and textbook networks; float bases and witnesses are tolerance-tested.")
 LEVEL_NOTE = ("Partial by nature: no theorem is about numpy/scipy/HiGHS. Universal: build_S model theorems and checker soundness. Per input: "
@@ -166,6 +169,8 @@ def _one(*vals):
 
 
 def impl(case):
+    if case.get("raw"):
+        return _impl_raw(case)
     if case.get("il"):
         return _impl_intlaw(case)
     if case.get("states"):
@@ -231,6 +236,114 @@ def _impl_intlaw(case):
         stoich._vector_to_minimal_integer = orig
     assert len(flags) == len(laws)
     return [_law_obs(l, fb) for l, fb in zip(laws, flags)]
+
+
+# ------------------------------------------------------------------ raw attribute layer (round 5)
+# caller-supplied DiGraphs whose nodes / edges carry only SOME of the documented attributes (model/C17_RawModel.v).
+# case["raw"] = {"nodes": [[id, attrs], ...], "edges": [[u, v, attrs], ...]}; ids are ints or strings; attrs hold any of
+# kind / bipartite / label (nodes), role / stoich (edges) with documented or foreign values.
+
+def _raw_graph(case):
+    import networkx as nx
+    G = nx.DiGraph()
+    for u, a in case["raw"]["nodes"]:
+        G.add_node(u, **a)
+    for u, v, a in case["raw"]["edges"]:
+        G.add_edge(u, v, **a)
+    return G
+
+
+def _impl_raw(case):
+    from synkit.CRN.Props import stoich
+    from synkit.CRN.Props import utils as U
+    G = _raw_graph(case)
+    pos = {u: i for i, u in enumerate(G.nodes)}
+    try:
+        sp_nodes, rx_nodes = U._split_species_reactions(G)
+        sl, rl, si, ri = U._species_and_reaction_order(G)
+        sp, rx, Sm, Sp = stoich.build_S_minus_plus(G)
+        sp2, rx2, S = stoich.build_S(G)
+        sn_sorted, sl2, si2 = U._species_order(G)
+    except ValueError:
+        return [2]
+    except KeyError:
+        return [3]
+    s_sorted = sorted(si, key=lambda u: si[u])
+    r_sorted = sorted(ri, key=lambda u: ri[u])
+    ok = (set(sp_nodes) == set(si) and set(rx_nodes) == set(ri) and list(sn_sorted) == s_sorted and list(sl2) == list(sl) and si2 == si
+          and sorted(si.values()) == list(range(len(si))) and sorted(ri.values()) == list(range(len(ri))))
+    return [0, _one([pos[u] for u in s_sorted]) if ok else ["INCONSISTENT"], [pos[u] for u in r_sorted],
+            _one(list(sl), list(sp), list(sp2)), _one(list(rl), list(rx), list(rx2)), _imat(Sm), _imat(Sp), _imat(S)]
+
+
+def _coq_case_raw(case):
+    G = _raw_graph(case)
+    pos = {u: i for i, u in enumerate(G.nodes)}
+
+    def tri(v, yes, no):
+        # [Some true] / [Some false] / [None] exactly as the code's == tests read the value (0 == False == 0.0, 1 == True)
+        return "(Some true)" if v == yes else "(Some false)" if v == no else "None"
+    nodes = []
+    for u, a in G.nodes(data=True):
+        lab = a.get("label", None)
+        nodes.append("(RNode %s %s %s %s %s)" % (
+            cN(pos[u]), _cstr(str(u)), tri(a.get("kind"), "species", "reaction"),
+            tri(a["bipartite"], 0, 1) if "bipartite" in a else "None",
+            "None" if "label" not in a else "(Some %s)" % _cstr(str(lab))))
+    edges = []
+    for u, v, a in G.edges(data=True):
+        ro = a.get("role")
+        edges.append("(REdge %s %s %s %s)" % (
+            cN(pos[u]), cN(pos[v]), "(Some Reactant)" if ro == "reactant" else "(Some Product)" if ro == "product" else "None",
+            "(Some %s)" % cZ(int(a["stoich"])) if "stoich" in a else "None"))
+    return "run_raw (RG %s %s)" % (clist(nodes), clist(edges))
+
+
+def _oracle_raw(case):
+    """On graphs whose attributes are partly absent the property still fixes the matrix: one row per species-classified node, one
+    column per reaction-classified node, entry = produced - consumed over the role-carrying incidences with absent coefficients
+    read as 1 (the documented defaults).  Independent reference straight from the case description."""
+    from synkit.CRN.Props import stoich
+    G = _raw_graph(case)
+
+    def sl(a):
+        return a.get("kind") == "species" or ("bipartite" in a and a["bipartite"] == 0)
+
+    def rl(a):
+        return a.get("kind") == "reaction" or ("bipartite" in a and a["bipartite"] == 1)
+    attrs = dict(G.nodes(data=True))
+    if any(sl(a) and rl(a) for a in attrs.values()):
+        return []                      # contradictory attributes: outside the documented conventions, correspondence only
+    species = [u for u in G.nodes if sl(attrs[u])]
+    rxns = [u for u in G.nodes if rl(attrs[u])]
+    try:
+        sp, rx, S = stoich.build_S(G)
+    except ValueError:
+        return [] if (not species or not rxns) else [dict(clause="S-shape", detail="build_S raised ValueError although the graph has species %r and reactions %r" % (species, rxns))]
+    if not species or not rxns:
+        return [dict(clause="S-shape", detail="build_S answered on a graph without species or without reactions")]
+    lab = lambda u: str(attrs[u].get("label", u))
+    want = {}
+    for u, v, a in G.edges(data=True):
+        s_, r_ = (u, v) if (sl(attrs[u]) and rl(attrs[v])) else (v, u) if (sl(attrs[v]) and rl(attrs[u])) else (None, None)
+        if s_ is None:
+            continue
+        c = int(a.get("stoich", 1))
+        if a.get("role") == "product":
+            want[(s_, r_)] = want.get((s_, r_), 0) + c
+        elif a.get("role") == "reactant":
+            want[(s_, r_)] = want.get((s_, r_), 0) - c
+    fails = []
+    Si = _imat(S)
+    if sorted(sp) != sorted(lab(u) for u in species) or len(rx) != len(rxns) or len(Si) != len(species) or any(len(r) != len(rxns) for r in Si):
+        return [dict(clause="S-shape", detail="rows %r / %d columns; the graph has species %r and %d reaction nodes" % (list(sp), len(rx), sorted(map(lab, species)), len(rxns)))]
+    # columns as multisets of (reaction label, {species label: entry}): species labels are unique by construction of the cases
+    from collections import Counter
+    got = Counter((str(rx[j]), tuple(sorted((sp[i], Si[i][j]) for i in range(len(sp)) if Si[i][j]))) for j in range(len(rx)))
+    ref = Counter((lab(r_), tuple(sorted((lab(s_), c) for (s_, r2), c in want.items() if r2 == r_ and c))) for r_ in rxns)
+    if got != ref:
+        fails.append(dict(clause="S-entries", detail="columns %r, expected %r (nodes %r, edges %r)" % (sorted(got.items()), sorted(ref.items()), case["raw"]["nodes"], case["raw"]["edges"])))
+    return fails
 
 
 def _cfrac(x):
@@ -431,6 +544,8 @@ def certificates(S, m, n):
 
 
 def coq_case(case):
+    if case.get("raw"):
+        return _coq_case_raw(case)
     if case.get("il"):
         return _coq_case_intlaw(case)
     if case.get("states"):
@@ -487,6 +602,8 @@ def node_ids(case):
 # ------------------------------------------------------------------ property oracle
 
 def oracle(case):
+    if case.get("raw"):
+        return _oracle_raw(case)
     if case.get("il"):
         return []          # the property text makes no exact demand on the scaled integer laws (count = species - rank is judged on the
                            # network cases); these cases tie the helper's integer / rational logic to the model (correspondence only)
@@ -786,7 +903,7 @@ def _oracle_core(case, H, Xv=None):
 
 def shrink(case, fl):
     """Drop reactions / isolated species / decorations while the same clause still fails."""
-    if case.get("states") or case.get("il"):
+    if case.get("states") or case.get("il") or case.get("raw"):
         return case
     cur = dict(case)
     clause = fl.get("clause")
@@ -817,7 +934,7 @@ def shrink(case, fl):
 
 
 def neighbours(case, rng):
-    if case.get("states") or case.get("il"):
+    if case.get("states") or case.get("il") or case.get("raw"):
         return []
     out = []
     for k in range(len(case["rxns"])):
@@ -828,6 +945,8 @@ def neighbours(case, rng):
 
 
 def nontrivial(case, obs):
+    if case.get("raw"):
+        return isinstance(obs, list) and len(obs) == 8 and any(any(x != 0 for x in row) for row in obs[7])
     if case.get("il"):
         return isinstance(obs, list) and any(o != [99] and o not in ([[0] * len(o[0])] if o and isinstance(o[0], list) else []) for o in obs)
     if case.get("states"):
@@ -841,7 +960,23 @@ def distribution(cases, obss):
     views = {}
     hist = dict(cases=0, states=0, edits={})
     il = dict(cases={}, laws=0, fallback=0, zero=0, limit_queries=0)
+    rawd = dict(cases=0, answers={}, nodes_without_kind=0, nodes_without_flag=0, nodes_without_label=0, junk_nodes=0, edges_without_stoich=0,
+                edges_without_role=0, foreign_values=0)
     for c, o in zip(cases, obss):
+        if c.get("raw"):
+            rawd["cases"] += 1
+            key = str(o[0]) if isinstance(o, list) and o else "?"
+            rawd["answers"][key] = rawd["answers"].get(key, 0) + 1
+            for _, a in c["raw"]["nodes"]:
+                rawd["nodes_without_kind"] += "kind" not in a
+                rawd["nodes_without_flag"] += "bipartite" not in a
+                rawd["nodes_without_label"] += "label" not in a
+                rawd["junk_nodes"] += not (a.get("kind") in ("species", "reaction") or a.get("bipartite") in (0, 1))
+                rawd["foreign_values"] += a.get("kind", "species") not in ("species", "reaction") or a.get("bipartite", 0) not in (0, 1)
+            for _, _, a in c["raw"]["edges"]:
+                rawd["edges_without_stoich"] += "stoich" not in a
+                rawd["edges_without_role"] += a.get("role") not in ("reactant", "product")
+            continue
         if c.get("il"):
             il["cases"][c["il"]] = il["cases"].get(c["il"], 0) + 1
             if c["il"] == "limit":
@@ -874,7 +1009,7 @@ def distribution(cases, obss):
         if isinstance(dl, int) and dl > 1:
             lp_branch += 1
     return dict(matrix_sizes=dict(sorted(sizes.items())), ranks=ranks, verdicts=verd, left_kernel_dims=lk,
-                left_kernel_dim_gt1=lp_branch, views=views, edit_histories=hist, integer_laws=il)
+                left_kernel_dim_gt1=lp_branch, views=views, edit_histories=hist, integer_laws=il, raw_attribute_graphs=rawd)
 
 
 # ------------------------------------------------------------------ generators
@@ -1162,9 +1297,121 @@ def gen_intlaw(tier, rng, nets):
     return out
 
 
+def gen_raw(tier, rng, nets):
+    """raw attribute graphs derived from networks of the net population: each node keeps a random subset of kind / bipartite / label
+    (always enough to be classified; labels fall back to the node id, which then IS the species name), each arc a random subset of
+    role / stoich; plus junk: nodes without attributes or with foreign values (kind='other', bipartite=2), species-species and
+    reaction-reaction edges, role-less / foreign-role edges, edges to junk nodes; a few with CONTRADICTORY attributes."""
+    q = tier == "quick"
+    out = []
+    pool = [c for c in nets if not c.get("states") and c.get("rxns") and len(c["rxns"]) <= 8]
+    for c in rng.sample(pool, min(len(pool), 220 if q else 2000)):
+        species = sorted({s_ for _, _, l, r in c["rxns"] for s_, _ in l + r} | set(c.get("iso", [])))
+        if any(not s_ or s_ != s_.strip() for s_ in species):
+            continue
+        style = rng.choice(["name", "name", "int", "prefixed"])
+        sid = {s_: (s_ if style == "name" else 100 + 7 * i if style == "int" else "S:" + s_) for i, s_ in enumerate(species)}
+        nodes, edges = [], []
+        order = list(species)
+        rng.shuffle(order)
+        for s_ in order:
+            a = {}
+            z = rng.random()
+            if z < 0.35:
+                a["kind"] = "species"
+            elif z < 0.7:
+                a["bipartite"] = 0
+            else:
+                a.update(kind="species", bipartite=0)
+            if style != "name" or rng.random() < 0.5:
+                a["label"] = s_
+            nodes.append([sid[s_], a])
+        for j, (eid, rule, l, r) in enumerate(c["rxns"]):
+            rid_ = "R:%s" % eid if style != "int" else 5000 + j
+            a = {}
+            z = rng.random()
+            if z < 0.35:
+                a["kind"] = "reaction"
+            elif z < 0.7:
+                a["bipartite"] = 1
+            else:
+                a.update(kind="reaction", bipartite=1)
+            if rng.random() < 0.7:
+                a["label"] = rule
+            nodes.insert(rng.randrange(len(nodes) + 1), [rid_, a])
+            lhs = {x: cc for x, cc in l}
+            rhs = {x: cc for x, cc in r}
+            for x, cc in lhs.items():
+                if x in rhs:
+                    continue                # a species on both sides needs two arcs between the same pair: (s, r) and (r, s) below
+                ea = {"role": "reactant"}
+                if cc != 1 or rng.random() < 0.5:
+                    ea["stoich"] = cc
+                edges.append([sid[x], rid_, ea] if rng.random() < 0.8 else [rid_, sid[x], ea])      # direction does not matter, the role does
+            for x, cc in rhs.items():
+                ea = {"role": "product"}
+                if cc != 1 or rng.random() < 0.5:
+                    ea["stoich"] = cc
+                if x in lhs:
+                    edges.append([rid_, sid[x], ea])
+                    eb = {"role": "reactant"}
+                    if lhs[x] != 1 or rng.random() < 0.5:
+                        eb["stoich"] = lhs[x]
+                    edges.append([sid[x], rid_, eb])
+                else:
+                    edges.append([rid_, sid[x], ea] if rng.random() < 0.8 else [sid[x], rid_, ea])
+        # junk
+        have = {(u, v) for u, v, _ in edges}
+        rnodes = [u for u, a in nodes if a.get("kind") == "reaction" or a.get("bipartite") == 1]
+        snodes = [sid[s_] for s_ in species]
+        for _ in range(rng.choice([0, 1, 2, 3, 4])):
+            z = rng.random()
+            if z < 0.3:
+                nodes.append(["junk%d" % len(nodes), rng.choice([{}, {"kind": "other"}, {"bipartite": 2}, {"label": "Z9"}, {"kind": "Species"}])])
+            elif z < 0.5 and len(snodes) >= 2:
+                u, v = rng.sample(snodes, 2)
+                if (u, v) not in have:
+                    edges.append([u, v, {"role": "product", "stoich": 4}])
+                    have.add((u, v))
+            elif z < 0.65 and len(rnodes) >= 2:
+                u, v = rng.sample(rnodes, 2)
+                if (u, v) not in have:
+                    edges.append([u, v, {"role": "reactant"}])
+                    have.add((u, v))
+            elif z < 0.85 and snodes and rnodes:
+                u, v = rng.choice(snodes), rng.choice(rnodes)
+                if (u, v) not in have and (v, u) not in have:
+                    edges.append([u, v, rng.choice([{}, {"stoich": 3}, {"role": "catalyst", "stoich": 2}, {"role": None}])])
+                    have.add((u, v))
+            else:
+                nodes.append(["junk%d" % len(nodes), {}])
+                if rnodes:
+                    edges.append([nodes[-1][0], rng.choice(rnodes), {"role": "reactant", "stoich": 2}])
+        rng.shuffle(edges)
+        out.append(dict(raw=dict(nodes=nodes, edges=edges), kind="raw-attributes", rxns=[], name=(c.get("name") or c.get("kind", "")) + "/raw"))
+    # degenerate / contradictory
+    out.append(dict(raw=dict(nodes=[["A", {}]], edges=[]), kind="raw-attributes", rxns=[]))
+    out.append(dict(raw=dict(nodes=[["A", {"kind": "species"}]], edges=[]), kind="raw-attributes", rxns=[]))
+    out.append(dict(raw=dict(nodes=[["A", {"bipartite": 0}], ["r", {"bipartite": 1}]], edges=[]), kind="raw-attributes", rxns=[]))
+    out.append(dict(raw=dict(nodes=[["A", {"kind": "species"}], ["x", {"kind": "reaction", "bipartite": 0}], ["r", {"kind": "reaction"}]],
+                             edges=[["A", "x", {"role": "reactant"}], ["r", "A", {"role": "product"}]]), kind="raw-attributes", rxns=[]))
+    out.append(dict(raw=dict(nodes=[["A", {"kind": "species"}], ["x", {"kind": "species", "bipartite": 1}], ["r", {"kind": "reaction"}]],
+                             edges=[["x", "r", {"role": "reactant", "stoich": 2}], ["r", "A", {"role": "product"}]]), kind="raw-attributes", rxns=[]))
+    # falsy labels that ARE present: "" / 0 / "0" must be used as they are (not replaced by the node id)
+    out.append(dict(raw=dict(nodes=[["n1", {"kind": "species", "label": ""}], ["n2", {"kind": "species", "label": "0"}], ["n3", {"bipartite": 0, "label": 0}],
+                                    ["n4", {"kind": "reaction", "label": ""}], ["n5", {"bipartite": 1, "label": 0}]],
+                             edges=[["n1", "n4", {"role": "reactant"}], ["n4", "n2", {"role": "product", "stoich": 2}], ["n3", "n5", {"role": "reactant", "stoich": 3}],
+                                    ["n5", "n1", {"role": "product"}]]), kind="raw-attributes", rxns=[]))
+    out.append(dict(raw=dict(nodes=[[7, {"bipartite": 0, "label": ""}], [0, {"bipartite": 1}], [3, {"bipartite": 0}]],
+                             edges=[[7, 0, {"role": "reactant"}], [0, 3, {"role": "product"}]]), kind="raw-attributes", rxns=[]))
+    out.append(dict(raw=dict(nodes=[[0, {"bipartite": False, "label": "A"}], [1, {"bipartite": True, "label": "go"}], [2, {"bipartite": 0.0}]],
+                             edges=[[0, 1, {"role": "reactant"}], [1, 2, {"role": "product", "stoich": 2}]]), kind="raw-attributes", rxns=[]))
+    return out
+
+
 def gen_cases(tier, rng):
     cases = _gen_cases_nets(tier, rng)
-    return cases + gen_intlaw(tier, rng, cases)
+    return cases + gen_intlaw(tier, rng, cases) + gen_raw(tier, rng, cases)
 
 
 def _gen_cases_nets(tier, rng):
